@@ -117,13 +117,13 @@ func vexpByte(p string, neg bool) int {
 // C13 integers: Unpack(Pack(n)) == n for every int64, PackSize == length, and the bytes are the
 // canonical number format with value n.
 //
-//symgo:harness prop=C13 tier=quick arith=int solver=z3-new shards=4 tshards=16 timeout=300 ttimeout=1500 bounds=quick:_all_int64_with_1..5_or_16_digits,_10_digits_(0_or_9_trailing_zeros),_17_(0,16),_18_(0),_19_digits_(0,1,2,17_or_18_trailing_zeros),_zero;thorough:_every_int64
+//symgo:harness prop=C13 tier=quick arith=int solver=z3-new shards=4 tshards=16 timeout=300 ttimeout=1500 bounds=quick:_all_int64_with_1..5_or_16_digits,_10_digits_(0_or_9_trailing_zeros),_17_(0,16),_18_(0),_19_digits_(0,1,2,3_(negative),17_or_18_trailing_zeros),_zero;thorough:_every_int64
 func VerifC13IntRoundTrip() {
 	c := vpickClass("n", []vclass{{false, 0, 0},
 		{false, 1, -1}, {false, 2, -1}, {false, 3, -1}, {false, 4, -1}, {false, 5, -1}, {false, 10, 0}, {false, 10, 9}, {false, 16, -1},
 		{false, 17, 0}, {false, 17, 16}, {false, 18, 0}, {false, 19, 0}, {false, 19, 1}, {false, 19, 18},
 		{true, 1, -1}, {true, 2, -1}, {true, 3, -1}, {true, 4, -1}, {true, 5, -1}, {true, 10, 0}, {true, 10, 9}, {true, 16, -1},
-		{true, 17, 0}, {true, 17, 16}, {true, 18, 0}, {true, 19, 0}, {true, 19, 1}, {true, 19, 2}, {true, 19, 17}, {true, 19, 18}})
+		{true, 17, 0}, {true, 17, 16}, {true, 18, 0}, {true, 19, 0}, {true, 19, 1}, {true, 19, 2}, {true, 19, 3}, {true, 19, 17}, {true, 19, 18}})
 	n := vint("n", c)
 	x := SuInt64{int64: n}
 	p := Pack(x)
@@ -147,25 +147,30 @@ func VerifC13IntRoundTrip() {
 	if ok {
 		rt.Assert("int/roundtrip", int64(vi) == n)
 	} else {
-		// an integer may legitimately come back as an equal decimal
+		// an integer may legitimately come back as a decimal of exactly the same value
 		dn, isDn := v.(SuDnum)
-		rt.Assert("int/roundtrip-as-decimal", isDn && dn.Equal(x) && x.Equal(dn))
+		rt.Assert("int/roundtrip-as-decimal", isDn && dn.Equal(x))
+		rt.Assert("roundtrip/int-as-decimal-equal-both-ways", isDn && x.Equal(dn))
 	}
 }
 
 // C13 integers: an integer packs to the same bytes whether it is held as SuInt64, as a small
-// int or as a decimal (canonical encoding). Every int64 that a decimal can hold exactly (at most
-// 16 significant digits) is in the thorough bound.
+// int or as a decimal (canonical encoding). Thorough: every integer of up to 16 digits; of the
+// 17..19-digit integers that a decimal holds exactly (at most 16 significant digits) only those
+// with 16 or with 1 significant digits (the solvers time out on dnum.FromInt's rounding loop for
+// the others). For those the same conclusion follows from two checks that do cover them: every
+// int64 (VerifC13IntRoundTrip) and every Dnum (VerifC13DnumRoundTrip) packs to the canonical
+// format of exactly its value, and that format is unique per value.
 //
-//symgo:harness prop=C13 tier=quick arith=int solver=z3-new shards=3 tshards=16 timeout=300 ttimeout=1500 bounds=quick:_integers_of_1..4_digits,_16_digits_(0,1,15_trailing_zeros),_17_(1,16)_and_19_digits_(3,18);thorough:_every_int64_with_at_most_16_significant_digits;small_ints_in_int16
+//symgo:harness prop=C13 tier=quick arith=int solver=z3-new shards=3 tshards=16 timeout=300 ttimeout=1500 bounds=quick:_integers_of_1..4_digits,_16_digits_(0,1,15_trailing_zeros),_17_(1,16)_and_19_digits_(3,18);thorough:_every_integer_of_1..16_digits,_17..19_digits_with_16_or_1_significant_digits;small_ints_in_int16 outside=17..19-digit_integers_with_2..15_significant_digits
 func VerifC13IntCanonical() {
 	var c vclass
 	if rt.Thorough() {
 		c.neg = rt.Pick("n_neg", 2) == 1
 		c.k = rt.Pick("n_digits", 19) + 1
 		c.t = -1
-		if c.k > 16 { // needs at least k-16 trailing zeros
-			c.t = c.k - 16 + rt.Pick("n_tz", 16)
+		if c.k > 16 { // needs at least k-16 trailing zeros: the fewest (16 significant digits) or the most (1)
+			c.t = []int{c.k - 16, c.k - 1}[rt.Pick("n_tz", 2)]
 		}
 	} else {
 		quick := []vclass{{false, 1, -1}, {false, 2, -1}, {false, 3, -1}, {false, 4, -1}, {false, 16, 0}, {false, 16, 1}, {false, 16, 15},
